@@ -464,6 +464,11 @@ def get_unconnected_connectors(graph: nx.MultiDiGraph, start_nodes: Set[DSGNode]
                 base_conn_node = edge[1]
                 break
 
+        # The aggregated degree of a grouping node is stored on the node object, which is shared between graphs: make
+        # sure it reflects the connectors grouped in this graph
+        if isinstance(base_conn_node, ConnectorDegreeGroupingNode) and base_conn_node not in checked:
+            base_conn_node.update_deg(graph)
+
         is_out_conn = True
         for edge in iter_in_edges(graph, base_conn_node):
             if get_edge_type(edge) == EdgeType.CONNECTS:
